@@ -1,10 +1,16 @@
 /-
 Helper lemmas for C08, part 2: delta-of-delta timestamp step.
+NOTE: never use `unfold`/default-transparency `rfl` on goals that contain `if … < 2147483648`:
+whnf then unfolds `Nat.ble` on the literal in unary.  Use `rw`/`simp only`.
 -/
 import SigModel.Lemmas.C08
 
 namespace SigModel.Lemmas.C08
 open SigModel SigModel.Gorilla
+
+theorem ite_fst {α β : Type} (p : Prop) [Decidable p] (a : α) (x y : α × β)
+    (hx : x.1 = a) (hy : y.1 = a) : (if p then x else y).1 = a := by
+  split <;> assumption
 
 /-- the bits `compressTimestamp` emits, as a function of the delta-of-delta. -/
 def tsBits (dod : Int) : Bits :=
@@ -21,39 +27,17 @@ theorem wbF : writeBits 0x0F 4 = [true, true, true, true] := by decide
 
 theorem compressTimestamp_snd (c : Enc) (t : Nat) :
     (compressTimestamp c t).2 = tsBits (dodOf c t) := by
-  unfold compressTimestamp tsBits dodOf
-  simp only [wb2, wb6, wbE, wbF]
-  split
-  · rfl
-  · split
-    · rfl
-    · split
-      · rfl
-      · split <;> rfl
+  rw [compressTimestamp, tsBits, dodOf]
+  simp only [wb2, wb6, wbE, wbF, apply_ite Prod.snd, List.cons_append, List.nil_append]
 
 theorem compressTimestamp_fst (c : Enc) (t : Nat) :
     (compressTimestamp c t).1 = { c with t := t % P32, tDelta := (t % P32 + P32 - c.t) % P32 } := by
-  unfold compressTimestamp
-  simp only
-  split
-  · rfl
-  · split
-    · rfl
-    · split
-      · rfl
-      · split <;> rfl
+  rw [compressTimestamp]
+  exact ite_fst _ _ _ _ rfl (ite_fst _ _ _ _ rfl (ite_fst _ _ _ _ rfl (ite_fst _ _ _ _ rfl rfl)))
 
 /-- decoder step on `dod = 0`. -/
 theorem decompressTimestamp_zero (d : Dec) (r : Bits) :
     decompressTimestamp d (false :: r) = .ok ({ d with t := (d.t + d.delta) % P32 }, r) := by
-  simp [decompressTimestamp, dodBitN]
-
-theorem decompressTimestamp_7 (d : Dec) (x : Nat) (r : Bits) :
-    decompressTimestamp d (true :: false :: (writeBits x 7 ++ r)) =
-      (let bits := x % 2 ^ 7
-       let dod : Int := if 2 ^ 6 < bits then (bits : Int) - 2 ^ 7 else bits
-       let delta := (((d.delta : Int) + dod) % (P32 : Int)).toNat
-       .ok ({ d with delta := delta, t := (d.t + delta) % P32 }, r)) := by
-  simp [decompressTimestamp, dodBitN, readBits_writeBits]
+  simp only [decompressTimestamp, dodBitN]
 
 end SigModel.Lemmas.C08
